@@ -59,14 +59,14 @@ func TestVerifC17Join(t *testing.T) {
 		if _, err := cn.API.CreateIndex(ctx, "ik", pilosa.IndexOptions{Keys: true}); err != nil {
 			t.Fatal(err)
 		}
-		if _, err := cn.API.CreateField(ctx, "ik", "k", pilosa.OptFieldTypeSet(pilosa.CacheTypeNone, 0), pilosa.OptFieldKeys()); err != nil {
+		if _, err := vrcCreateField(cn.API, "ik", "k", pilosa.OptFieldTypeSet(pilosa.CacheTypeNone, 0), pilosa.OptFieldKeys()); err != nil {
 			t.Fatal(err)
 		}
 		// index with existence tracking, several shards
 		if _, err := cn.API.CreateIndex(ctx, "ie", pilosa.IndexOptions{TrackExistence: true}); err != nil {
 			t.Fatal(err)
 		}
-		if _, err := cn.API.CreateField(ctx, "ie", "f", pilosa.OptFieldTypeSet(pilosa.CacheTypeRanked, 100)); err != nil {
+		if _, err := vrcCreateField(cn.API, "ie", "f", pilosa.OptFieldTypeSet(pilosa.CacheTypeRanked, 100)); err != nil {
 			t.Fatal(err)
 		}
 		var sb strings.Builder
